@@ -45,6 +45,7 @@ var h1specs = []h1spec{
 	{Name: "reuse-peerclose-retry", Reuse: true, PeerClose: true},
 	{Name: "fresh-get-hdrtimeout", HdrTimeout: true},
 	{Name: "queued-maxconns-get", Queued: true},
+	{Name: "fresh-upload-expect-continue", Upload: true, Expect: true},
 }
 
 var h2specs = []h2spec{
@@ -72,6 +73,8 @@ var retrySpecs = []retrySpec{
 	{Name: "attempt-2-in-flight", Max: 3, Attempts: 1},
 	{Name: "attempt-3-in-flight-unlimited", Max: -1, Attempts: 2},
 	{Name: "first-attempt-in-flight", Max: 2, Attempts: 0},
+	{Name: "zero-interval-attempt-2-in-flight-unlimited", Max: -1, Zero: true, Attempts: 1},
+	{Name: "zero-interval-attempt-3-in-flight", Max: 5, Zero: true, Attempts: 2},
 }
 
 func allJobs() []job {
@@ -201,6 +204,11 @@ func runJob(j job, seed uint64, quick bool) (out []result) {
 	return
 }
 
+func fileExists(p string) bool {
+	_, err := os.Stat(p)
+	return err == nil
+}
+
 func jobName(j job) string {
 	switch j.Fam {
 	case "h1":
@@ -249,6 +257,23 @@ func runC08(r *hk.Run) {
 	if err != nil {
 		r.Fail(hk.Failure{Sig: "harness:self", What: err.Error()})
 		return
+	}
+	// thorough tier: the scenarios run under the race detector (a binary built here, next to the
+	// outputs; the same module file the driver used when the check runs against a scratch tree)
+	if !r.Quick() && os.Getenv("C08_NORACE") == "" {
+		raceExe := filepath.Join(r.OutDir, "harness_race.bin")
+		args := []string{"build"}
+		if alt := filepath.Join(r.OutDir, "go.alt.mod"); fileExists(alt) {
+			args = append(args, "-modfile="+alt)
+		}
+		args = append(args, "-race", "-tags", "verif", "-o", raceExe, "./c08")
+		cmd := exec.Command("go", args...)
+		if out, err := cmd.CombinedOutput(); err != nil {
+			r.Notes = append(r.Notes, "race build failed, scenarios ran without the race detector: "+trunc(string(out), 400))
+		} else {
+			exe = raceExe
+			r.Notes = append(r.Notes, "thorough tier: every scenario process ran under the Go race detector")
+		}
 	}
 	jobs := allJobs()
 	par := 6
